@@ -50,6 +50,12 @@ def many_globals(n):
     return HEADER + "".join("g%d :: fn -> int do %d end\n" % (i, i) for i in range(n)) + "start :: fn do\n  print(g0())\nend\n"
 
 
+CONST_ARITH = ["0.0 / 0.0", "-(0.0 / 0.0)", "1.0 / 0.0", "-1.0 / 0.0", "0.0 - 1.0 / 0.0", "-(1.0 / 0.0)", "(1.0 / 0.0) - (1.0 / 0.0)",
+               "(1.0 / 0.0) * 0.0", "-0.0", "0.0 * -1.0", "-9223372036854775807 - 1", "9223372036854775807 + 1", "-(-9223372036854775807 - 1)",
+               "9223372036854775807 * 2", "0.1 + 0.2", "1e308 * 10.0", "-1e308 * 10.0", "1e-320 / 1e10", "7 / 2", "-7 / 2", "1 / 3", "2 * 3 + 4 * 5",
+               "1.5 * 2.0 - 3.0", "(1 + 2) * (3 - 4) / 5", "1.0 / 3.0 * 3.0", "100000000000000000000.0 * 10.0", "1e15 + 0.5", "1e16 + 1.0"]
+
+
 def cases(r, tier):
     out = []
     for kw in LUA_ONLY_KEYWORDS:
@@ -74,6 +80,10 @@ def cases(r, tier):
     for lit in ["0", "9223372036854775807", "1e999", "1e308", "1e-999", "0.1", "1.", ".5", "123456789012345678", "1e16", "1e15",
                 "0.000001", "100000000000000000000.0", "1e+5", "2e-3", "00012", "1.0"]:
         out.append(("number", number_prog(lit)))
+    # arithmetic on number literals only (what a compiler may evaluate itself): the results at the edges of the number
+    # types -- not-a-number, both infinities, negative zero, the smallest and largest int, float rounding
+    for e in CONST_ARITH:
+        out.append(("const-arith", "print: fn *X -> void : external\nstart :: fn do\n  c := %s\n  print(c)\n  print(c == c)\n  print(%s)\nend\n" % (e, e)))
     for e in UNUSED:
         out.append(("unused", unused_prog([e])))
     for _ in range(30 if tier == "quick" else 400):
